@@ -132,7 +132,9 @@ func (w *World) fireTimer(n *Node, r *registration, label string) {
 		case <-ctx.Done():
 		}
 	}()
+	w.stimNode = n
 	w.quiesce()
+	w.stimNode = nil
 }
 
 // realTimerBefore: advancing the clock to t would let a real timer fire on the way.
@@ -625,7 +627,9 @@ func (w *World) syncTo(n *Node, target *StoredBlock, th uint64, label string) bo
 	blk, proof := target.block, target.proof
 	done := make(chan error, 1)
 	go func() { done <- lh.UpdateState(ctx, blk, proof) }()
+	w.stimNode = n
 	w.quiesce()
+	w.stimNode = nil
 	if n.mainParked != nil || len(n.pendingSyncs) > 0 {
 		// the main loop is busy: the call may legitimately wait for it (callers are served first come, first served);
 		// it is picked up again when it returns
